@@ -402,6 +402,16 @@ func (c *ctl) control(done <-chan struct{}) (stalled bool) {
 				case mode == "random":
 					c.releaseLocked(live[c.rng.Intn(len(live))], "")
 				case mode == "script" && c.scriptAt < len(script):
+					st := script[c.scriptAt]
+					offered := false
+					for _, p := range live {
+						if p.side == st.Host && p.class == st.Class && p.n == st.N {
+							offered = true
+						}
+					}
+					if offered {
+						break // it arrived while settling: take it in the next round
+					}
 					// the request the script waits for is not coming: drift
 					if c.drift == "" {
 						st := script[c.scriptAt]
